@@ -551,6 +551,11 @@ pub fn panic_site(msg: &str) -> String {
             let loc = &msg[i + 3..];
             let loc = loc.rsplit_once(':').map_or(loc, |x| x.0);
             let loc = loc.strip_prefix("/repo/").unwrap_or(loc);
+            // dependency sources: keep "<crate>-<version>/src/file.rs"
+            if let Some(k) = loc.find("/registry/src/") {
+                let rest = &loc[k + "/registry/src/".len()..];
+                return rest.split_once('/').map_or(rest, |x| x.1).to_string();
+            }
             loc.to_string()
         }
         None => "?".to_string(),
